@@ -22,14 +22,17 @@ fn clip(ts: &[Tri<ClipVert<Attr>>]) -> Result<Vec<Tri<ClipVert<Attr>>>, String> 
 fn dists(p: &[f64; 4]) -> [f64; 6] { let [x, y, z, w] = *p; [-z - w, z - w, -x - w, x - w, -y - w, y - w] }
 
 /// Exact visible polygon in the (u,v)=(l1,l2) chart by brute-force vertex enumeration. Returns CCW polygon.
-fn ref_polygon(t: &[P4; 3]) -> Vec<[f64; 2]> {
+fn ref_polygon(t: &[P4; 3]) -> Vec<[f64; 2]> { ref_polygon_m(t, 0.0) }
+/// The same with the six frustum planes moved inwards by `margin` (outwards if negative), in units of the largest
+/// coordinate magnitude: the set of points inside the frustum by at least that much.
+fn ref_polygon_m(t: &[P4; 3], margin: f64) -> Vec<[f64; 2]> {
     // homogeneous coordinates: a common positive factor does not change the chart polygon - normalise the magnitude
     let m = t.iter().flatten().fold(0.0f64, |m, x| m.max(x.abs() as f64)).max(1e-300);
     let v: [[f64; 4]; 3] = t.map(|p| p.map(|c| c as f64 / m));
     let d: [[f64; 6]; 3] = [dists(&v[0]), dists(&v[1]), dists(&v[2])];
     // constraints g(u,v) = a + b u + c v >= 0
     let mut g: Vec<[f64; 3]> = vec![[1.0, -1.0, -1.0], [0.0, 1.0, 0.0], [0.0, 0.0, 1.0]];
-    for i in 0..6 { g.push([-d[0][i], -(d[1][i] - d[0][i]), -(d[2][i] - d[0][i])]); }
+    for i in 0..6 { g.push([-d[0][i] - margin, -(d[1][i] - d[0][i]), -(d[2][i] - d[0][i])]); }
     let scale = d.iter().flatten().fold(1.0f64, |m, x| m.max(x.abs()));
     // f64 evaluation of exactly representable f32 data: only rounding of the vertex solve has to be absorbed
     let eps = 1e-12 * scale;
@@ -73,6 +76,12 @@ fn check_single(t: &[P4; 3], r: &mut Report) {
     let scale = v.iter().flatten().fold(1e-30f64, |m, x| m.max(x.abs()));
     let poly = ref_polygon(t);
     let pa = area(&poly);
+    // f32 rounding moves clip-space points by a few 1e-8 of the coordinate magnitude; where an edge runs almost inside a
+    // frustum plane that is a visible amount of chart area. 'Beyond rounding' is therefore judged against the frustum
+    // shrunk / grown by 2^-21 of the magnitude (4 ulp).
+    const BAND: f64 = 1.0 / 2097152.0;
+    let (poly_in, poly_out) = (ref_polygon_m(t, BAND), ref_polygon_m(t, -BAND));
+    let (pa_in, pa_out) = (area(&poly_in), area(&poly_out));
     let mut sum = 0.0;
     let mut tris_uv: Vec<[[f64; 2]; 3]> = vec![];
     for (oi, Tri(vs)) in out.iter().enumerate() {
@@ -104,10 +113,13 @@ fn check_single(t: &[P4; 3], r: &mut Report) {
         tris_uv.push(uv);
     }
     // (3) nothing lost, no overlap
-    if pa < 1e-9 { r.h("visible-part-has-no-area"); if sum > 1e-6 { r.violation(key("area"), format!("visible part has no area but outputs cover {sum:.3e}"), case()); } return; }
-    r.margin("area", (sum - pa).abs(), 1e-5);
-    if !((sum - pa).abs() <= 1e-5) { r.violation(format!("area|{}|{t:?}", if sum < pa { "lost" } else { "excess" }), format!("outputs cover area {sum:.6} of the barycentric chart, the visible part has area {pa:.6} ({} outputs)", out.len()), case()); return; }
+    if pa_out < 1e-9 { r.h("visible-part-has-no-area"); if sum > 1e-6 { r.violation(key("area"), format!("visible part has no area but outputs cover {sum:.3e}"), case()); } return; }
+    if pa_out - pa_in > 1e-5 { r.h("ill-conditioned(edge almost inside a frustum plane): area judged within the rounding band"); }
+    r.margin("area", (pa_in - sum).max(sum - pa_out).max(0.0), 1e-5);
+    if !(sum >= pa_in - 1e-5 && sum <= pa_out + 1e-5) { r.violation(format!("area|{}|{t:?}", if sum < pa { "lost" } else { "excess" }), format!("outputs cover area {sum:.6} of the barycentric chart, the visible part has area {pa:.6} ({} outputs)", out.len()), case()); return; }
     // sample points: each strictly-inside sample is in exactly one output
+    let poly = if poly_in.len() >= 3 { poly_in.clone() } else { vec![] };
+    if poly.is_empty() { r.nontrivial(); return; }
     let inside_poly = |p: [f64; 2], m: f64| { let n = poly.len(); (0..n).all(|i| { let (a, b) = (poly[i], poly[(i + 1) % n]); let e = (b[0] - a[0]) * (p[1] - a[1]) - (b[1] - a[1]) * (p[0] - a[0]); e / ((b[0] - a[0]).hypot(b[1] - a[1])).max(1e-12) > m }) };
     const G: usize = 24;
     for i in 1..G { for j in 1..G - i {
@@ -230,6 +242,6 @@ fn main() {
     }
     rep.sample(0, || obj! {"triangle" => vec![vec![-2.0f32, 1.0, -0.5, 2.0], vec![1.0, 1.0, 1.0, -1.0], vec![-0.5, -2.0, 1.0, 1.0]], "attributes" => "barycentric unit vectors + scalar (3,-7,11)"});
     rep.finish(&cfg, "exploration",
-        "every ordered triple of a clip-space point lattice (x,y,z in C, w in W incl. negative w; thorough adds on-plane values) is clipped singly, and a second lattice with coordinates 2^-16 inside/outside the planes at scales 1, 2^-12 and 2^-20; every 5th triangle also with a Color3f attribute whose channels lie outside [0,1]; per output vertex: position == affine combination given by the carried barycentric attribute (so the attribute field is intact), scalar attribute likewise, inside triangle and frustum; outputs keep the input's orientation in the barycentric chart, their areas sum to the area of the exact visible polygon (vertex enumeration over the 9 bounding lines, f64 on dyadic data) and a 24x24 chart sample grid finds every interior point in exactly one output; trivially inside => unchanged bit-for-bit, wholly outside one plane => nothing; batches: every pair and (quick: a subset of, thorough: every) triple from a 96-triangle pool (32 of them needing clipping yet vanishing entirely) clipped in one call == concatenation of single results. non-trivial = genuinely clipped triangle with positive visible area.",
+        "every ordered triple of a clip-space point lattice (x,y,z in C, w in W incl. negative w; thorough adds on-plane values) is clipped singly, and a second lattice with coordinates 2^-16 inside/outside the planes at scales 1, 2^-12 and 2^-20; every 5th triangle also with a Color3f attribute whose channels lie outside [0,1]; per output vertex: position == affine combination given by the carried barycentric attribute (so the attribute field is intact), scalar attribute likewise, inside triangle and frustum; outputs keep the input's orientation in the barycentric chart, their areas sum to the area of the exact visible polygon (vertex enumeration over the 9 bounding lines, f64 on dyadic data; judged between the polygons of the frustum shrunk and grown by 2^-21 of the coordinate magnitude, which differ only where an edge runs almost inside a plane) and a 24x24 chart sample grid finds every interior point in exactly one output; trivially inside => unchanged bit-for-bit, wholly outside one plane => nothing; batches: every pair and (quick: a subset of, thorough: every) triple from a 96-triangle pool (32 of them needing clipping yet vanishing entirely) clipped in one call == concatenation of single results. non-trivial = genuinely clipped triangle with positive visible area.",
         &["tolerances 1e-5 relative to the coordinate scale; zero-area outputs tolerated", "lattice, not all floats"]);
 }
